@@ -43,6 +43,14 @@ from replay.oracles import c01 as B
 HASHSEEDS = ["0", "1", "2", "12345"]
 
 
+def _refusal(ex):
+    """a refusal is compared by exception class and message; the repr of a set inside the message (its element order is
+    not source text and follows the hash seed) is put in sorted order"""
+    import re
+    msg = re.sub(r"\{([^{}]*)\}", lambda m: "{" + ", ".join(sorted(x.strip() for x in m.group(1).split(","))) + "}", str(ex))
+    return "ERROR %s: %s" % (type(ex).__name__, msg)
+
+
 # ---- presentations of one description -----------------------------------------------------------------------
 
 def present(code, how):
@@ -74,7 +82,7 @@ def python_text(code):
     try:
         return PyCodeGenerator("Method")(code)
     except Exception as ex:     # noqa: BLE001
-        return "ERROR %s: %s" % (type(ex).__name__, ex)
+        return _refusal(ex)
 
 
 _REG = {}
@@ -122,7 +130,7 @@ def fortran_text(code, fspec, implicit_index_vars=False):
         cg = F.CodeGenerator("method", function_registry=registry(fspec), user_type_map=tmap, **kw)
         return cg(code)
     except Exception as ex:     # noqa: BLE001
-        return "ERROR %s: %s" % (type(ex).__name__, ex)
+        return _refusal(ex)
 
 
 def interp_trace(code, prog):
@@ -131,7 +139,7 @@ def interp_trace(code, prog):
         st.set_up(prog["t0"], prog["dt"], prog["state"])
         return json.dumps(B.drive(st, prog["run"], prog.get("cap", 24)), sort_keys=True, default=str)
     except Exception as ex:     # noqa: BLE001
-        return "ERROR %s: %s" % (type(ex).__name__, ex)
+        return _refusal(ex)
 
 
 def confusable_ids(code):
@@ -373,8 +381,9 @@ class OdeGen:
     """method descriptions in the style of real time integrators (usable by the Fortran generator):
     a user-type state <state>y, right-hand side calls, vector temporaries, norms, scalar step-size logic"""
 
-    def __init__(self, rng):
+    def __init__(self, rng, multi=False):
         self.rng = rng
+        self.multi = multi      # several ODE components (<state>y, <state>z, <state>w, each yielded) and dense linear algebra
 
     def t_expr(self):
         return self.rng.choice(["<t>", ["+", "<t>", "<dt>"], ["+", "<t>", ["*", 0.5, "<dt>"]]])
@@ -424,7 +433,29 @@ class OdeGen:
         for _ in range(n):
             r = rng.random()
             temps = sorted(v for v in env["vecs"] if not v.startswith("<"))
-            if r < 0.2:
+            if self.multi and r >= 0.88 and not env.get("in_if"):
+                # dense linear algebra built-ins (their Fortran templates are module-level CallCode objects)
+                n_el = rng.choice([2, 3])
+                m = self.fresh(env, "m")
+                out.append(["assign", m, ["call", "<builtin>array", [n_el * n_el], {}]])
+                out.append(["assign_sub", m, "i", ["+", "i", self.scal_expr(env, 2)], [["i", 0, n_el * n_el]]])
+                which = rng.choice(["matmul", "transpose", "linear_solve", "matmul+transpose"])
+                res = self.fresh(env, "m")
+                if which == "transpose":
+                    out.append(["assign", res, ["call", "<builtin>transpose", [m, n_el], {}]])
+                elif which == "linear_solve":
+                    out.append(["assign_sub", m, ["+", ["*", "i", n_el], "i"], 5, [["i", 0, n_el]]])
+                    out.append(["assign", res, ["call", "<builtin>linear_solve", [m, m, n_el, n_el], {}]])
+                else:
+                    out.append(["assign", res, ["call", "<builtin>matmul", [m, m, n_el, n_el], {}]])
+                    if which.endswith("transpose"):
+                        r2_ = self.fresh(env, "m")
+                        out.append(["assign", r2_, ["call", "<builtin>transpose", [res, n_el], {}]])
+                        res = r2_
+                sc = self.fresh(env, "s")
+                out.append(["assign", sc, ["[]", res, rng.randrange(n_el * n_el)]])
+                env["scals"].add(sc)
+            elif r < 0.2:
                 k = self.fresh(env, "k")
                 out.append(["call", [k], rng.choice(sorted(self.rhs)), [self.t_expr(), self.vec_expr(env, 1)], {}])
                 env["vecs"].add(k)
@@ -497,6 +528,9 @@ class OdeGen:
         self.pairs = {"<func>g": "y"} if rng.random() < 0.7 else {}
         initial = rng.choice(self.phase_names)
         phases = []
+        comps = ["y"]
+        if self.multi:
+            comps = rng.choice([["y", "z"], ["y", "z", "w"], ["y", "pos", "vel", "chem"], ["y", "z", "w", "v"]])
         for name in self.phase_names:
             env = {"vecs": {"<state>y"}, "scals": {"<t>", "<dt>", "<p>h"}, "used": {"i"}}
             body = []
@@ -514,16 +548,31 @@ class OdeGen:
             temps = sorted(v for v in env["vecs"] if not v.startswith("<"))
             a = rng.choice(temps + ["<state>y"])
             body.append(["assign", "<state>y", ["+", a, ["*", self.scal_expr(env, 1), rng.choice(ks)]]])
+            for c in comps[1:]:
+                # every further component has a user type and a right-hand side of its own
+                kc = self.fresh(env, "k" + c)
+                body.append(["call", [kc], "<func>f_" + c, [self.t_expr(), "<state>" + c], {}])
+                body.append(["assign", "<state>" + c, ["+", "<state>" + c, ["*", self.scal_expr(env, 1), kc]]])
             body.append(["assign", "<t>", ["+", "<t>", "<dt>"]])
-            body.append(["yield", "<state>y", "y", "<t>", rng.choice(["final", "stage"])])
+            if self.multi:
+                for c in comps:
+                    body.append(["yield", "<state>" + c, c, "<t>", rng.choice(["final", "stage"])])
+            else:
+                body.append(["yield", "<state>y", "y", "<t>", rng.choice(["final", "stage"])])
             phases.append({"name": name, "next": rng.choice(self.phase_names), "body": body})
         funcs = {f: ["rhs"] for f in self.rhs}
         funcs.update({g: ["vpair"] for g in self.pairs})
+        all_rhs = dict(self.rhs)
+        for c in comps[1:]:
+            funcs["<func>f_" + c] = ["rhs"]
+            all_rhs["<func>f_" + c] = c
         prog = {"phases": phases, "initial": initial, "funcs": funcs,
-                "state": {"y": [rng.choice([0.5, 1, -2]) for _ in range(3)]}, "t0": 0, "dt": 0.25,
+                "state": ({c: [rng.choice([0.5, 1, -2]) for _ in range(3)] for c in comps} if self.multi else
+                          {"y": [rng.choice([0.5, 1, -2]) for _ in range(3)]}), "t0": 0, "dt": 0.25,
                 "run": {"max_steps": 3, "t_end": None}, "cap": 24}
         return {"program": prog,
-                "fortran": {"types": {"y": rng.choice([3, 10])}, "rhs": self.rhs, "pairs": self.pairs,
+                "fortran": {"types": dict({"y": rng.choice([3, 10])}, **{c: 3 for c in comps[1:]}), "rhs": all_rhs,
+                            "pairs": self.pairs,
                             "instrumentation": rng.random() < 0.3}}
 
 
@@ -581,18 +630,32 @@ def bounded(payload):
     og = OdeGen(rng)
     odes = [og.description() for _ in range(n_ode)]
     gens = [builder_description(rng) for _ in range(n_gen)]
-    inputs = []                       # interleaved, so that a cut-off run still covers both populations
+    # third population (own random stream): several ODE components, dense linear algebra built-ins
+    n_multi = budget.get("multi_component_methods", 24 if tier == "quick" else 200)
+    om = OdeGen(random.Random("multi/%s" % seed), multi=True)
+    multis = [om.description() for _ in range(n_multi)]
+    for m_ in multis:
+        m_["population"] = "multi"
+    base = []                         # interleaved, so that a cut-off run still covers all populations
     for i in range(max(n_ode, n_gen)):
-        inputs += odes[i:i + 1] + gens[i:i + 1]
-    for i, inp in enumerate(inputs):
-        if i % 3 == 2:
-            inp["ids"] = "confusable"        # statement ids that tie under natural-sort / numeric-suffix keys
-    for i, inp in enumerate(inputs):
-        inp["other"] = strip_other(inputs[i - 1]) if i else strip_other(inputs[-1])
+        base += odes[i:i + 1] + gens[i:i + 1]
+    for pop in (base, multis):
+        for i, inp in enumerate(pop):
+            if i % 3 == 2:
+                inp["ids"] = "confusable"        # statement ids that tie under natural-sort / numeric-suffix keys
+        for i, inp in enumerate(pop):
+            inp["other"] = strip_other(pop[i - 1]) if i else strip_other(pop[-1])
+    inputs = []
+    stride = max(1, len(base) // max(1, len(multis)))
+    for i, inp in enumerate(base):
+        inputs.append(inp)
+        if i % stride == stride - 1 and i // stride < len(multis):
+            inputs.append(multis[i // stride])
+    inputs += [m_ for m_ in multis if not any(m_ is x for x in inputs)]
 
     failures, known_hits = [], []
     per_class = {}
-    parts = {"ode_methods": 0, "builder_programs": 0, "fortran_text_generated": 0, "fortran_generation_refused": 0,
+    parts = {"ode_methods": 0, "builder_programs": 0, "multi_component_linalg_methods": 0, "fortran_text_generated": 0, "fortran_generation_refused": 0,
              "subprocess_launches": 0, "failing_inputs": 0, "fingerprint_hits": {},
              "suppressed_by_active_fingerprint": 0, "clauses_failed": {}, "texts_compared": 0}
     refusals = {}
@@ -614,7 +677,8 @@ def bounded(payload):
             _LAST.clear()
             _LAST[B.key_of(inp)] = v
             evals += 1
-            parts["ode_methods" if inp["fortran"] else "builder_programs"] += 1
+            parts["multi_component_linalg_methods" if inp.get("population") == "multi" else
+                  "ode_methods" if inp["fortran"] else "builder_programs"] += 1
             parts["texts_compared"] += len(w) * (len(hows) + 1) * (2 if inp["fortran"] else 1)
             if inp["fortran"]:
                 if v["fortran_ok"]:
